@@ -71,6 +71,7 @@ PROPS = {
         "assumptions": COMMON_ASSUME,
         "tests": [
             {"name": "TestProp_C10_Observer", "quick": {"shards": 8, "checks": 60, "timeout": 400}, "thorough": {"shards": 16, "checks": 800, "timeout": 3000}},
+            {"name": "TestProp_C10_Interop", "quick": {"shards": 8, "checks": 40, "timeout": 400}, "thorough": {"shards": 16, "checks": 600, "timeout": 3000}},
         ],
     },
 }
@@ -119,5 +120,44 @@ PROPS["C18"] = {
     "assumptions": COMMON_ASSUME,
     "tests": [
         {"name": "TestProp_C18_Lifecycle", "quick": {"shards": 8, "checks": 150, "timeout": 400}, "thorough": {"shards": 16, "checks": 3000, "timeout": 3000}},
+    ],
+}
+
+PROPS["C10"]["rule"] += (" Interop check: scripts of sends both ways, partial deliveries, SMP started by either side with equal/different secrets (incl. empty and 1200-byte binary), "
+                         "extra-key requests both ways, unknown and padding TLVs from the reference, reference-side fragmentation, all four role/version combinations; oracle: same SSID, complementary highlight, true fingerprints, "
+                         "every text delivered unchanged in order both ways, neither side ever rejects the other's genuine message, SMP verdicts agree with secret equality on both sides, extra keys equal.")
+
+PROPS["C11"] = {
+    "level": "exploration",
+    "technique": "property-based testing (rapid): generated SMP runs between two real conversations with secret pairs built to be equal or to differ minimally, and a man-in-the-middle relay world built from the independent reference implementation; oracle: success iff byte-equal secrets / never under relay",
+    "level_text": "SMP runs (1-3 per session, either initiator, with/without question, ordinary traffic and DH rotations before start, before the answer and while message 3/4 are in flight) judged by the events both sides raise; relay of SMP payloads between two separately keyed sessions must never succeed",
+    "level_note": "secrets up to 64 KB; relay attacker forwards SMP TLVs verbatim (it cannot do better without the session secrets)",
+    "rule": ("secret pairs derived from 5 bases (text, empty, 1 byte, up to 64 KB binary, binary with NUL/0xff) and 6 classes (same, last bit, trailing NUL, one byte shorter, first bit, leading space); "
+             "oracle equal: Success on both sides and no failure/abort/cheated/error; different: no Success anywhere, Failure at the responder, Failure or Abort at the initiator; question arrives verbatim. "
+             "Relay: otr3 A and B each in its own session with a reference-party half of the relay (own key), SMP TLVs forwarded verbatim both ways, both victims answer; no Success ever, also with equal secrets. "
+             "Non-trivial: rotations happened around the run or several runs back to back; relay: the run reached the final comparison/verification."),
+    "assumptions": COMMON_ASSUME,
+    "tests": [
+        {"name": "TestProp_C11_Session", "quick": {"shards": 8, "checks": 12, "timeout": 400}, "thorough": {"shards": 16, "checks": 200, "timeout": 3000}},
+        {"name": "TestProp_C11_Relay", "quick": {"shards": 8, "checks": 12, "timeout": 400}, "thorough": {"shards": 16, "checks": 200, "timeout": 3000}},
+    ],
+}
+
+PROPS["C12"] = {
+    "level": "exploration",
+    "technique": "differential property-based testing (rapid + exhaustive field x boundary-value enumeration): an authenticated reference peer sends deviant SMP messages; a shadow verifier that applies the specification's checks with the victim's own randomness decides whether success may be reported",
+    "level_text": "every field of SMP messages 1-4 replaced by boundary values, miscounts/truncations, missing question terminator, honest-but-degenerate provers (exponent 0 or q), a re-sealed message with Qb = 0, out-of-sequence messages and user calls in every state; no success unless the shadow accepts and secrets match, no crash, and a fresh honest run succeeds afterwards",
+    "level_note": "open known finding C12/v2-no-group-check (OTRv2 skips group checks, pinned by unit tests): violations of exactly that class under v2 are counted as excluded, its witness is re-run on every check",
+    "rule": ("the victim is a real otr3 conversation in a real session with the reference party; steps: victim start/answer/abort, reference sends SMP1..4 or abort, each honest or with one deviation: field i := {0,1,p-1,p,p+1,q,random,+1,-1}, "
+             "element count +1/-1/2^32-1, truncated value, empty value, question without NUL, prover exponents a2/a3/b2/b3 forced to 0 or q, Pb=1 & Qb=0|p with recomputed proof. The shadow (reference SMP arithmetic fed with the victim's recorded random exponents, "
+             "self-checked by reproducing the victim's own SMP1/SMP2 byte-exactly) accepts or rejects each message per the specification including group membership; Success may be raised only when it accepts and the secrets are equal. "
+             "Afterwards: abort, then a fresh honest run each way must succeed. Non-trivial: a deviant message (MAC valid) reached the SMP automaton."),
+    "assumptions": COMMON_ASSUME,
+    "exhaustive_checks": ["C12degenerate", "C12fields"],
+    "tests": [
+        {"name": "TestProp_C12_Deviant", "quick": {"shards": 8, "checks": 10, "timeout": 500}, "thorough": {"shards": 16, "checks": 150, "timeout": 3000}},
+        {"name": "TestProp_C12_Fields", "kind": "plain", "quick": {"shards": 8, "timeout": 500}, "thorough": {"shards": 16, "timeout": 3000}},
+        {"name": "TestProp_C12_Degenerate", "kind": "plain", "quick": {"shards": 4, "timeout": 500}, "thorough": {"shards": 4, "timeout": 3000}},
+        {"name": "TestKnown_C12_V2GroupCheck", "witness_only": True},
     ],
 }
